@@ -516,3 +516,52 @@ func Resolve(at ssa.Instruction, v ssa.Value) ssa.Value {
 	}
 	return v
 }
+
+// HoldsAt reports whether pred is established whenever control is at
+// instruction at: by a dominating fact, or — disjunctively — by a dominating
+// test of a boolean phi each of whose operands that can produce the tested
+// value either is a condition satisfying pred or arrives over an edge on which
+// pred is established. (The shape an inlined predicate helper leaves behind:
+// `return true` on one path, `return x == y` on another.)
+func HoldsAt(at ssa.Instruction, pred func(Fact) bool) bool {
+	return holdsIn(FactsAtInstr(at), pred, 0)
+}
+
+func holdsIn(fs []Fact, pred func(Fact) bool, depth int) bool {
+	if HasFact(fs, pred) {
+		return true
+	}
+	if depth > 3 {
+		return false
+	}
+	for _, f := range fs {
+		rel := f.Rel()
+		if rel.B == nil {
+			continue
+		}
+		phi, ok := rel.B.(*ssa.Phi)
+		if !ok {
+			continue
+		}
+		all := true
+		n := 0
+		for i, e := range phi.Edges {
+			if cb, isC := ConstBool(e); isC && cb != rel.Pol {
+				continue // this operand cannot produce the tested value
+			}
+			n++
+			edgeFacts := FactsAtEdge(phi.Block().Preds[i], phi.Block())
+			if _, isC := ConstBool(e); !isC {
+				edgeFacts = append(append([]Fact{}, edgeFacts...), Fact{Cond: e, Pol: rel.Pol})
+			}
+			if !holdsIn(edgeFacts, pred, depth+1) {
+				all = false
+				break
+			}
+		}
+		if all && n > 0 {
+			return true
+		}
+	}
+	return false
+}
